@@ -21,7 +21,7 @@ MON = {"meta", "query"}
 
 
 def units(tier, seed):
-    return CC.make_units(tier, seed, 300, 4000)
+    return CC.make_units(tier, seed, 240, 2400, per=5)
 
 
 def run_unit(u, acc):
